@@ -15,7 +15,7 @@ CHECK = dict(
           S("par-model", quick=1200, thorough=5400, workers=16, case_timeout=1800)],
     rule=("cases = (program, reported concurrency, 1/16 of the root's alternatives); executions = schedules run; distinct = (program, concurrency) pairs; non-trivial = cases in "
           "which at least one explored schedule contained a steal. The serial-reference phase runs each program twice in the serial build (determinism) and writes the reference hashes."),
-    bounds=dict(quick="8 programs x concurrency 2, every single deviation (bound 1)",
-                thorough="18 scale-S programs x concurrency {1,2,4,16}, bound 2 capped at 40000 executions per case; 4 scale-L programs, bound 1"),
+    bounds=dict(quick="10 programs (incl. a BatchBoolean whose round results tie in NumVert and an import of 6 bow-ties) x concurrency 2, kSeqThreshold 4, par_threshold 0, literal gates lowered (H4), every single deviation (bound 1)",
+                thorough="21 scale-S programs x concurrency {1,2,4,16}, bound 2 capped at 40000 executions per case; 6 scale-L programs at the production thresholds, bound 1"),
     assumptions=COMMON_ASSUME + ["real libtbb's scheduler is represented by the model", "sequentially consistent interleavings at task granularity"],
 )
